@@ -340,6 +340,10 @@ def cfg_of(func):
     return c
 
 
+class Edges(dict):
+    """Per-successor-label result of a transfer function ({label: state}; '*' = default)."""
+
+
 def forward(cfg, init, transfer, join, equal=None, max_iter=200000):
     """Generic forward worklist solver.
     transfer(cnode, state) -> dict label->state  or a single state (applied to all successors)
@@ -355,7 +359,7 @@ def forward(cfg, init, transfer, join, equal=None, max_iter=200000):
         st = IN[n.id]
         out = transfer(n, st)
         for (label, m) in n.succs:
-            s = out.get(label, out.get('*')) if isinstance(out, dict) else out
+            s = out.get(label, out.get('*')) if isinstance(out, Edges) else out
             if s is None:
                 continue
             old = IN.get(m.id)
